@@ -297,7 +297,7 @@ def module(p, repeat=None):
     moddoc = st.none()
     if p.moddoc:
         moddoc = weighted((2, st.none()), (1, st.fixed_dictionaries({
-            "name": st.one_of(st.none(), st.sampled_from(["mod_@", "My.Module@", "Find@.cmake", "pkg/mod@", "m@-x", "mödul@", "名前@", "x@.CMAKE"])),
+            "name": st.one_of(st.none(), st.sampled_from(["mod_@", "My.Module@", "Find@.cmake", "pkg/mod@", "m@-x", "mödul@", "名前@", "x@.CMAKE", "\u0e01\u0e34@", "\u0915\u093e@"])),
             "lines": st.lists(benign_line(), max_size=3) if p.doc is None else p.doc.map(lambda d: d["lines"]),
             "mpos": st.integers(0, 8),
             "indent": st.none() if p.moddoc_indent is None else p.moddoc_indent})))
